@@ -217,7 +217,18 @@ def check_handlers(ix, rep, cls, hs):
             else:
                 rep.fail('R-EXH', where, sym, slot, '%s has no explanation handler: intervals are passed through as if it were pointwise' % nc.name, f.node.lineno)
             continue
-        # compute
+        # compute: the request is handed on to every operand (a handler that never visits an operand reports none of its variables)
+        binary_ = ix.find_class('rtamt.syntax.node.binary_node', 'BinaryNode')
+        unary_ = ix.find_class('rtamt.syntax.node.unary_node', 'UnaryNode')
+        arity = 2 if ix.is_subclass(nc, binary_) else 1 if ix.is_subclass(nc, unary_) else 0
+        if arity:
+            reached = _children_reached(ix, cls, f, f.node.args.args[1].arg, set())
+            miss = [k for k in range(arity) if 'all' not in reached and k not in reached]
+            if miss:
+                rep.fail('R-EXPL-ALL', where, sym, slot + ':operands', 'the handler of %s never visits operand %s: nothing below it is explained, the variables it mentions are missing from the '
+                         'reported cause' % (nc.name, ', '.join(str(k) for k in miss)), f.node.lineno)
+            else:
+                rep.ok('R-EXPL-ALL', where, sym, slot + ':operands', 'every operand is visited', f.node.lineno)
         op = HANDLER_OP.get(nc.name)
         calls = [c.func.id[len('explain_'):] for c in ast.walk(f.node) if isinstance(c, ast.Call) and isinstance(c.func, ast.Name) and c.func.id.startswith('explain_')]
         if op is not None and op not in ('prev', 'next') or op in ('prev', 'next'):
@@ -377,6 +388,35 @@ def _shift_table(rep, hs):
     table[fb.node.name] = 0
     rep._shift_table = table
     return table
+
+
+def _children_reached(ix, cls, f, nodep, seen, depth=0):
+    """indexes k such that the handler visits <node>.children[k] (itself or through methods of the visitor it hands the node to); 'all' for
+    visitChildren / a loop over the children"""
+    out = set()
+    if id(f) in seen or depth > 4:
+        return out
+    seen.add(id(f))
+    for x in ast.walk(f.node):
+        if isinstance(x, (ast.For, ast.comprehension)) and ast.unparse(x.iter).replace(' ', '') in ('%s.children' % nodep,):
+            out.add('all')
+        if not isinstance(x, ast.Call):
+            continue
+        name = D._self_call(x)
+        if name == 'visitChildren' and x.args and isinstance(x.args[0], ast.Name) and x.args[0].id == nodep:
+            out.add('all')
+        elif name in ('visit', 'visit_with_own_polarity') or (name and x.args and isinstance(x.args[0], ast.Subscript)):
+            a0 = x.args[0] if x.args else None
+            if isinstance(a0, ast.Subscript) and ast.unparse(a0.value) == '%s.children' % nodep and isinstance(a0.slice, ast.Constant):
+                out.add(a0.slice.value)
+        elif name and any(isinstance(a, ast.Name) and a.id == nodep for a in x.args):
+            g = ix.resolve_method(cls, name)
+            if g is not None and g is not f:
+                pos = [i for i, a in enumerate(x.args) if isinstance(a, ast.Name) and a.id == nodep][0]
+                ps = [a.arg for a in g.node.args.args][1:]
+                if pos < len(ps):
+                    out |= _children_reached(ix, cls, g, ps[pos], seen, depth + 1)
+    return out
 
 
 def _polarity_var(fnode):
